@@ -477,6 +477,7 @@ C19_OnlyFishmen(x, cfg) ==
 C19_FaultNamesLiveShard(x) ==
     \A f \in Rng(x.post.faults) : ~Has(x.pre.faults, "id", f.id) =>
         /\ HasShard(x.pre, f.shard) /\ ShardOf(x.pre, f.shard).sp = f.provider /\ ShardEnd(ShardOf(x.pre, f.shard)) > x.pre.h
+        /\ ShardOf(x.pre, f.shard).status = SCompleted       \* "actually holds": stored, not merely assigned or being handed over
         /\ HasOrder(x.pre, f.order) /\ InSeq(f.shard, OrderOf(x.pre, f.order).shards) /\ OrderOf(x.pre, f.order).data = f.data
         /\ HasMeta(x.pre, f.data)
 C19_NoCollateralEffect(x) ==
